@@ -220,14 +220,26 @@ func (backupManager *BackupManager) validLocation() bool {
 			backupManager.logger.Errorf("Could create backup dir at %v. (%w)", backupManager.backupLocation, err)
 			return false
 		}
-		destination, err := os.Create(backedUpDhIDFile)
+		// the id is written to a temporary file that is then renamed: a process killed in between must not leave
+		// an empty or partial id file behind, which would make every later run refuse the location
+		tmpIDFile := backedUpDhIDFile + ".tmp"
+		destination, err := os.Create(tmpIDFile)
 		if err != nil {
 			backupManager.logger.Errorf("Could not open backed up id file at %v. (%w)", backedUpDhIDFile, err)
 			return false
 		}
-		defer destination.Close()
 		_, err = io.Copy(destination, source)
+		if err == nil {
+			err = destination.Sync()
+		}
+		if cerr := destination.Close(); err == nil {
+			err = cerr
+		}
+		if err == nil {
+			err = os.Rename(tmpIDFile, backedUpDhIDFile)
+		}
 		if err != nil {
+			_ = os.Remove(tmpIDFile)
 			backupManager.logger.Errorf("Could not copý %v to %v.", dhIDFile, backedUpDhIDFile)
 			return false
 		}
